@@ -267,6 +267,14 @@ func (in *Interp) global(g *ssa.Global) *Value {
 	p := new(Value)
 	*p = in.zero(deref(g.Type()))
 	in.glob[g] = p
+	// sentinel error variables of packages whose initialiser is not run (strconv.ErrRange,
+	// strconv.ErrSyntax, io.EOF, ...): distinct non-nil error values
+	if g.Pkg != nil && !initAllow[g.Pkg.Pkg.Path()] {
+		if _, isIface := deref(g.Type()).Underlying().(*types.Interface); isIface &&
+			(strings.HasPrefix(g.Name(), "Err") || strings.HasPrefix(g.Name(), "err") || g.Name() == "EOF") {
+			*p = in.newError(Str{S: g.Pkg.Pkg.Path() + "." + g.Name()})
+		}
+	}
 	// lazily run the package initialiser of allow-listed packages
 	if g.Pkg != nil {
 		in.ensureInit(g.Pkg)
@@ -599,6 +607,18 @@ func (in *Interp) evalInstr(fr *frame, ins ssa.Value) Value {
 		switch x := x.(type) {
 		case Slice:
 			if x.JSON != nil {
+				cell := new(Value)
+				if i == 0 {
+					*cell = in.jsonFirstByte(x.JSON)
+					return cell
+				}
+				if b, ok := in.jsonRender(x.JSON); ok {
+					if i < 0 || i >= len(b) {
+						in.goPanic("index out of range")
+					}
+					*cell = b[i]
+					return cell
+				}
 				in.unsupported("element address of JSON text")
 			}
 			if i < 0 || i >= x.Len {
@@ -722,6 +742,9 @@ func (in *Interp) unop(fr *frame, ins *ssa.UnOp) Value {
 }
 
 func (in *Interp) strAt(s Str, i int) *sym.Term {
+	if s.Opq != nil && s.Opq.JSON != nil && i == 0 {
+		return in.jsonFirstByte(s.Opq.JSON)
+	}
 	if s.Opq != nil {
 		in.unsupported("byte of opaque string")
 	}
@@ -804,8 +827,8 @@ func (in *Interp) strEq(a, b Str) *sym.Term {
 			return in.Ctx.F
 		}
 		if o.JSON != nil && other.IsConc() {
-			if r, ok := jsonTextEqualsLiteral(o.JSON, other.S); ok {
-				return in.Ctx.Bool(r)
+			if r, ok := in.jsonTextEqTerm(o.JSON, other.S); ok {
+				return r
 			}
 		}
 		in.unsupported("comparison with opaque string (%s)", o.What)
@@ -1467,6 +1490,9 @@ func (in *Interp) builtin(fr *frame, b *ssa.Builtin, call *ssa.CallCommon, args 
 	case "len":
 		switch x := args[0].(type) {
 		case Str:
+			if x.Opq != nil && x.Opq.JSON != nil {
+				return c.BV(64, uint64(in.jsonTextLen(x.Opq.JSON)))
+			}
 			return c.BV(64, uint64(x.Len()))
 		case Slice:
 			if x.JSON != nil {
